@@ -288,7 +288,7 @@ def value_history_probe(run, rng, dist):
                 elif not want and got[0] == 'ok':
                     run.fail('strict-admits-invalid-value', 'STRICT accepts an invalid date/time literal after the same digits '
                              'were parsed for another datatype', version=v, datatype=dt, value=lit, order=order,
-                             observed=list(got), what='invalid-value', segment=None)
+                             observed=list(got), refusal='invalid-value', segment=None)
 
 
 def report(el):
